@@ -32,7 +32,7 @@ CLAIMED = {
                      'reconstructed and read back through a fresh cache object (thorough: all crash points of each history; '
                      'quick: a seeded sample of 10 per history). Oracle: old / complete new / allowed-missing, never '
                      'truncated or foreign bytes, bystanders unchanged; then a continuation on the post-crash state (the '
-                     'interrupted store repeated, stores to other addresses, a remove - in alternating order) must behave like a map '
+                     'interrupted store repeated, another single colour stored at the victim address, stores to other addresses, a remove - in alternating order) must behave like a map '
                      'and keep bundles structurally valid.',
                 note='trusted: process-death crash model (page-cache survives, syscalls ordered, page-granular tears), SimFS '
                      'journal replay; histories are sampled, crash points per history are enumerated',
@@ -46,7 +46,7 @@ CLAIMED = {
                      'scheduled at file-system-call granularity (incl. 3-4 writers contending for one bundle with lock-retry timers '
                      'firing while the holder runs), checked at quiescence. Sequential histories also meet I/O errors (one-shot or sticky) inside '
                      'a store/remove - the bundle must stay structurally valid - and dry-run defragmentations that must not change a byte. A defragmentation may meet one failing open() (it may abort, it must not lose a tile). About one case in 100 '
-                     'extends a bundle beyond 4 GiB as a sparse file on tmpfs and validates it through mmap.',
+                     'extends a bundle beyond 4 GiB as a sparse file on tmpfs and validates it through mmap. Cache directory names vary (also names containing the bundle extension).',
                 note='trusted: the independent parser (checks/bundleparse.py), SimFS; histories and schedules are sampled',
                 technique='deterministic simulation: model-based history checking with an independent bundle parser; seeded schedule search for concurrent bundle writers'),
     'C15': dict(level='exploration', ref='DESIGN.md 6.8',
@@ -70,14 +70,14 @@ CLAIMED = {
                      'and attributable to one fetch, final cache holds only correct in-grid tiles incl. every served tile '
                      '(API + raw walk), one fetch per meta tile, termination. A rare lock-identity case starts two fresh interpreters with '
                      'different hash seeds and compares the lock file names they derive for the same tiles and bundles. Backends include linked '
-                     'single-colour tiles (one shared file per colour, written without a tile lock of its own).',
+                     'single-colour tiles (one shared file per colour, written without a tile lock of its own). With bulk_meta_tiles the source may have nothing (BlankImage) for some tiles of a meta tile: the others must still be stored once, without refetching.',
                 note='trusted: stub source (TileManager-level runs) or simulated HTTP transport behind HTTPClient.open (about 20% of the '
                      'runs go through the full WSGI application built by the real loader: TMS/WMTS/KML/WMS-C/WMS GetMap), SimFS '
                      'flock/rename semantics, pre-emption at seam calls only',
                 technique='deterministic simulation: baton-passing scheduler over threads and simulated processes, simulated fs/locks/upstream, seeded schedule + fault search'),
     'C13': dict(level='exploration', ref='DESIGN.md 6.7',
                 text='seeded histories of tile requests, clock advances (sub-second, to a second boundary, backwards, hours ... months), '
-                     'threshold changes (relative age in seconds ... weeks, absolute ISO time, mtime of a file), touches of that file, upstream '
+                     'threshold changes (relative age in seconds ... weeks or several units at once, absolute ISO time, mtime of a file), touches of that file, upstream '
                      'failure/recovery and real refresh seed tasks, on the real TileManager (single- and meta-tile creation) with '
                      'file cache (also with symlinked single-colour tiles) on SimFS or per-level sqlite cache, plus two or three concurrent requests under a refresh rule; oracle from the timestamps actually recorded: stale tile => '
                      'upstream asked, tile rewritten with the new fetch generation; fresh tile => no upstream call, same '
@@ -95,14 +95,14 @@ CLAIMED = {
                      'HTTPClient.open; oracle: identical validators and body while the fetch generation in the pixels is '
                      'unchanged, 304 + empty body for the current ETag, every 304 justified (also for the previous copy\'s validators, pre-1970 '
                      'dates and requests that themselves trigger the refresh), fill images carry no-store, get no 304 and are never '
-                     'served from the cache. The cache may carry an invisible watermark filter, WMS-C answers may be merged from two cached layers, and the cache may sit on top of an inner cache with a larger tile size (fill images must stay uncacheable through the crop). A cacheable 404 mapping of the same colour may sit next to the uncached 500 one (the oracle replays what is stored per tile); race cases rewrite a tile through the cache API while it is served (a response\'s ETag may equal the stored tile\'s only if the bodies agree). A rewrite two or more seconds after the previous write must move Last-Modified on. Dates are written and read by the check\'s own code; cases run in seeded fixed-offset local time zones.',
+                     'served from the cache. The cache may carry an invisible watermark filter, WMS-C answers may be merged from two cached layers, and the cache may sit on top of an inner cache with a larger tile size (fill images must stay uncacheable through the crop). A cacheable 404 mapping of the same colour may sit next to the uncached 500 one (the oracle replays what is stored per tile); race cases rewrite a tile through the cache API while it is served (a response\'s ETag may equal the stored tile\'s only if the bodies agree). A rewrite two or more seconds after the previous write must move Last-Modified on. The disk may be full while a fetched tile is stored (a tile that was not stored must not be answered with 304 later). Dates are written and read by the check\'s own code; cases run in seeded fixed-offset local time zones.',
                 note='trusted: simulated HTTP transport and clock; sqlite backend outside the simulator; creating responses are '
                      'excluded from the equality clause',
                 technique='deterministic simulation: full WSGI stack over simulated clock, file system and upstream with HTTP-500 injection; model-based history checking'),
     'C12': dict(level='exploration', ref='DESIGN.md 6.6',
                 text='seeded cache contents (tiles stored at seeded simulated times, some in the same second; foreign objects: a '
                      'second cache, lock files, stray files) x one cleanup task (level list / range / open and zero-ended ranges / all; remove_all, remove_before as '
-                     'absolute time / relative age / file mtime, default; full extent, bbox (grid SRS or EPSG:4326), polygon or multi-part coverage; seeded fixed-offset local time zone and file time-stamp granularity; a deep variant places tiles around the bundle borders of levels 8/9 of a twelve-level pyramid; an earlier cleanup task of the same run may precede the task under test; directories may be older than their tiles; removals may take seconds; factor-2, sqrt2 and custom-resolution grids) built by the real '
+                     'absolute time / relative age / file mtime, default; full extent, bbox (grid SRS or EPSG:4326), polygon or multi-part coverage; seeded fixed-offset local time zone and file time-stamp granularity; a deep variant places tiles around the bundle borders of levels 8/9 of a twelve-level pyramid; an earlier cleanup task of the same run may precede the task under test; directories may be older than their tiles; removals may take seconds; a temporary file may vanish while the cleanup walks its directory; factor-2, sqrt2 and custom-resolution grids) built by the real '
                      'CleanupConfiguration and executed by the real cleanup() - all three strategies, with the real '
                      'TileCleanupWorker threads under the scheduler - on file (6 layouts, linked single-colour tiles, cache-level refresh_before), compact v1/v2 (SimFS), sqlite, mbtiles, '
                      'geopackage (tmpfs); oracle from recorded timestamps and independent geometry: must-remove / must-keep / '
